@@ -604,7 +604,8 @@ fn run_case(line: &str) -> String {
         if use_tcp { set.tcp.sh.reset(); if let Err(e) = tcp_send(&mut tcp_slots[base], set.tcp.addr, &frames) { notes.push(format!("tcp-{e}")); } }
         // gap=<ms>: the frames trickle in one by one on a fresh connection to the server that has a
         // read timeout (an idle timeout is per read: a steady trickle never trips it)
-        let gap = f.get("gap").map(|g| ph(g));
+        // cfg=1: the same server (read and write timeouts configured) for an ordinary pipeline
+        let gap = f.get("gap").map(|g| ph(g)).or(if f.get("cfg").map(|c| c == "1").unwrap_or(false) { Some(0) } else { None });
         let atcp_ep = if gap.is_some() { &w.slow } else { &set.atcp };
         let mut slow_slot: Option<net::RawTcp> = None;
         if use_atcp {
@@ -614,7 +615,8 @@ fn run_case(line: &str) -> String {
                 Some(ms) => {
                     let r = (|| -> Result<(), String> {
                         let c = tcp_conn(&mut slow_slot, atcp_ep.addr)?;
-                        for fr in &frames { c.send(fr).map_err(|e| format!("send:{}", e.kind()))?; std::thread::sleep(Duration::from_millis(ms)); }
+                        if ms == 0 { let all: Vec<u8> = frames.concat(); if !all.is_empty() { c.send(&all).map_err(|e| format!("send:{}", e.kind()))?; } }
+                        else { for fr in &frames { c.send(fr).map_err(|e| format!("send:{}", e.kind()))?; std::thread::sleep(Duration::from_millis(ms)); } }
                         c.send(&sync_frame()[..SYNC_HEAD]).map_err(|e| format!("send:{}", e.kind()))
                     })();
                     if let Err(e) = r { notes.push(format!("atcp-{e}")); }
@@ -898,7 +900,12 @@ fn gen_cases(seed: u64, thorough: bool) -> Vec<String> {
         }
         cases.push((false, 4, true, reqs));
     }
-    let mut lines: Vec<String> = cases.into_iter().enumerate().map(|(i, (mw, tr, sat, reqs))| case_line(i, mw, tr, sat, &reqs)).collect();
+    let mut lines: Vec<String> = cases.into_iter().enumerate().map(|(i, (mw, tr, sat, reqs))| {
+        let l = case_line(i, mw, tr, sat, &reqs);
+        // every fifth plain three-transport case runs its async leg against the server that has
+        // read and write timeouts configured
+        if !mw && !sat && tr == 7 && i % 5 == 0 { format!("{l} cfg=1") } else { l }
+    }).collect();
     // a trickle of notifies (each gap shorter than the async server's read timeout, the whole run
     // longer), then a request: every notify handler runs and the request is answered
     for _ in 0..(if thorough { 6 } else { 2 }) {
